@@ -66,7 +66,12 @@ def scrape_envs(root, fs, emitted):
     for (i, m), c in cs.items():
         skel.append(("cpp-skel", i, m, c))
     for i in tops:
+        slots = scrape.rust_skel_slots(scrape.rd(scrape.rust_file_for(rs, i)))
         for op, m, c in scrape.rust_skel(scrape.rd(scrape.rust_file_for(rs, i))):
+            # the arm reads or writes every slot the counts word announces, and no other
+            # (a slot beyond the announced ones is the known class of uncounted objects of small structs)
+            if c is not None and sum(c) > 0 and m in slots and not set(range(sum(c))) <= set(slots[m]):
+                skel.append(("rust-skel-slots", i, m, ("touches slots %s of %d" % (slots[m], sum(c)),)))
             if c is not None:
                 skel.append(("rust-skel", i, m, c))
             else:
@@ -131,6 +136,9 @@ def run(ctx):
             stub_counts.setdefault((i, m), set()).add(c)
         sk_bad = []
         present = {}
+        for lab, i, m, c in [x for x in skel if x[0] == "rust-skel-slots"]:
+            sk_bad.append((lab, i, m, c[0], None))
+        skel = [x for x in skel if x[0] != "rust-skel-slots"]
         for lab, i, m, c in skel:
             present.setdefault(lab, set()).add((i, m))
             if c is not None and (i, m) in stub_counts and stub_counts[(i, m)] != {c}:
